@@ -3,8 +3,13 @@
 correspondence: histories over {update(features, strategy), delete(ids), add_relation, reopen} on file databases vs
 the Lean session model (Interface.update / delete / addRelation / openDb), full table dump after every step.
 oracle (real code only): an independent reference dict/sets model of the same steps; counters monotone, keys never
-recycled across updates and reopenings; '.bak' equals the pre-operation database even when the feature source fails.
+recycled across updates and reopenings - also after an update that FAILED part-way (feature source raising behind
+the dialect peek, duplicate id, a merge_strategy="merge" clash that commits mid-import); '.bak' equals the
+pre-operation database even when the feature source fails.
+file level (GffModel/World.lean through ProtoWorld): the same faulty histories and make_backup scripts run through
+`World.step`, the world (which files exist, content of main file and .bak, session counters) compared after every step.
 """
+import gc
 import os
 import shutil
 import sqlite3
@@ -13,6 +18,7 @@ import warnings
 import common
 import dbside
 import gen_db
+import worldside
 from common import enc, dec
 
 TRUSTED = ["sqlite transactions across the two connections FeatureDB.update uses, shutil.copy2 of a quiescent database file"]
@@ -247,9 +253,10 @@ def check_backup(ctx, case, res):
     import gffutils
     from gffutils.feature import feature_from_line
     op, fail_at, lines = case["op"], case["fail_at"], case["input"]
+    checklines = case.get("checklines", 10)      # a source failing at fail_at > checklines fails DURING the import
     for old in [x for x in os.listdir(ctx.scratch) if x.startswith("b") and ".db" in x]:
         os.unlink(os.path.join(ctx.scratch, old))
-    dbfn = os.path.join(ctx.scratch, "b%s_%s.db" % (fail_at, op))
+    dbfn = os.path.join(ctx.scratch, "b%s_%s_%s.db" % (fail_at, op, checklines))
     path = dbside.write_lines(os.path.join(ctx.scratch, "b.gff3"), case["base"])
     db, rep = dbside.py_create(path, dbside.Cfg.from_json(case["config"]), dbfn=dbfn)
     db.conn.commit()
@@ -267,7 +274,7 @@ def check_backup(ctx, case, res):
         with warnings.catch_warnings():
             warnings.simplefilter("ignore")
             if op == "update":
-                db.update(source(), make_backup=True, merge_strategy="error")
+                db.update(source(), make_backup=True, merge_strategy="error", checklines=checklines)
             else:
                 def ids():
                     for i, x in enumerate(case["delete_ids"]):
@@ -289,6 +296,141 @@ def check_backup(ctx, case, res):
                     "the .bak file is not the complete pre-operation database",
                     outcome=outcome, observed=bak, expected=before)
     res.count("backup_%s_%s" % (op, outcome))
+    del db
+    gc.collect()
+
+
+# ---- histories with FAILING updates: keys never recycle ------------------------------------------------------
+FAULTY = [0]
+
+
+def key_number(key, base):
+    pre = base + "_"
+    return int(key[len(pre):]) if key.startswith(pre) and key[len(pre):].isdigit() else None
+
+
+def judge_clean_update(res, sub, out, lines, feats, feats_now, rel_now, new_feats, new_rel, seen):
+    """an update whose explicit ids are all new relative to the actual content and whose source does not fail:
+    False (and a recorded failure) unless it succeeded, added exactly its features, and drew fresh, continuing keys"""
+    explicit = [f[0] for f in feats if f[0] is not None]
+    if out != "ok":
+        common.fail(res, sub, "update_raised_in_faulty_history",
+                    "an update whose ids are all new (or auto-generated) raised %s after an earlier update of the "
+                    "history had failed part-way" % out, error=out, observed=out, expected="ok", update_lines=lines,
+                    database_ids=sorted(feats_now))
+        return False
+    problems = {}
+    added = set(new_feats) - set(feats_now)
+    auto_added = added - set(explicit)
+    want_auto = sorted((ftype, start, tuple(parents)) for fid, parents, ftype, start in feats if fid is None)
+    if set(feats_now) - set(new_feats) or [k for k in feats_now if k in new_feats and feats_now[k] != new_feats[k]]:
+        problems["stored_features_changed"] = sorted(set(feats_now) - set(new_feats))
+    if not set(explicit) <= added or [f for f in feats if f[0] is not None and new_feats.get(f[0]) != (f[2], f[3], tuple(f[1]))]:
+        problems["explicit_features_missing_or_different"] = sorted(set(explicit) - added)
+    if sorted(new_feats[k] for k in auto_added) != want_auto:
+        problems["auto_keyed_features"] = {"observed": sorted((k,) + new_feats[k] for k in auto_added),
+                                           "expected": want_auto}
+    if not rel_now <= new_rel or not {(p, k, 1) for k in added for p in new_feats[k][2]} <= new_rel:
+        problems["relations_lost_or_missing"] = sorted(rel_now - new_rel)
+    if problems:
+        common.fail(res, sub, "faulty_history_state_differs",
+                    "a successful update after a failed one did not add exactly its features to the actual content",
+                    update_lines=lines, **problems)
+        return False
+    for k in sorted(auto_added):
+        base = new_feats[k][0]
+        n = key_number(k, base)
+        earlier = [m for m in (key_number(x, base) for x in seen) if m is not None]
+        if k in seen:
+            common.fail(res, sub, "auto_key_recycled",
+                        "the auto-generated key %r had been handed out before (it was in the database earlier in this "
+                        "history)" % k, observed=k, update_lines=lines)
+            return False
+        if n is None or (earlier and n <= max(earlier)):
+            common.fail(res, sub, "auto_key_numbering_not_continued",
+                        "the auto-generated key %r does not continue the numbering of %r (highest handed out before: %s)"
+                        % (k, base, max(earlier) if earlier else None), observed=k, update_lines=lines)
+            return False
+    return True
+
+
+def play_faulty(ctx, case, res, scripts=None):
+    """one history whose updates may FAIL part-way, on a fresh file database, on ONE handle (and after reopening).
+    steps (JSON lists): ["update", [[id|null, [parents], featuretype, start], ...], strategy, fail_at|null, checklines,
+    make_backup] (fail_at: the feature source raises instead of yielding item fail_at; len(features) = after the last
+    one) | ["delete", [ids], make_backup] | ["reopen"].
+    What is judged (the state a FAILED update leaves in the main file is not specified): an update the property
+    prescribes an outcome for - every explicit id new relative to the ACTUAL content, source not failing - succeeds and
+    adds exactly its features to the actual content; each of its auto-generated keys is one that was never in the
+    database before and continues the numbering of its base; delete removes exactly the named features; an update with
+    a duplicate id under merge_strategy='error' raises.  Reopening directly after a failed update that left rows
+    behind reads counters the failed update never stored: from there on nothing is judged (counted as observation).
+    `scripts`: list collecting (RealWorld, description) for the World correspondence"""
+    FAULTY[0] += 1
+    root = os.path.join(ctx.scratch, "faulty%d" % FAULTY[0])
+    rw = worldside.RealWorld(os.path.join(root, "w"), os.path.join(root, "in"))
+    cfg0 = dbside.Cfg.from_json(case["config"])
+    rw.create("main.db", case["base"], cfg0, True)
+    rw.connect("main.db")
+    feats_now, rel_now = observe(rw.db)
+    seen = set(feats_now)
+    tainted, judged, changing = False, True, 0
+    for si, step in enumerate(case["input"]):
+        res.evaluations += 1
+        sub = dict(case, input=case["input"][: si + 1])
+        if step[0] == "update":
+            _, feats, strategy, fail_at, cl, backup = step
+            feats = [tuple(f) for f in feats]
+            lines = [feat_line(fid, parents, ftype, start) for fid, parents, ftype, start in feats]
+            explicit = [f[0] for f in feats if f[0] is not None]
+            clean = fail_at is None and len(set(explicit)) == len(explicit) and not (set(explicit) & set(feats_now))
+            res.count("faulty_update_" + ("clean" if clean else "source_fails" if fail_at is not None else "id_clash"))
+            out = rw.update(lines, dbside.Cfg(strategy=strategy), bool(backup), fail_at=fail_at, checklines=cl)
+            new_feats, new_rel = observe(rw.db)
+            if not judged:
+                if clean and (out != "ok" or (set(new_feats) - set(feats_now)) & seen):
+                    res.count("unjudged_key_recycled_after_reopening_a_partly_committed_failed_update")
+                    res.extra.setdefault("unjudged_observations", []).append(
+                        {"history": sub["input"], "outcome": out,
+                         "recycled": sorted((set(new_feats) - set(feats_now)) & seen)})
+            elif clean:
+                if not judge_clean_update(res, sub, out, lines, feats, feats_now, rel_now, new_feats, new_rel, seen):
+                    break
+                changing += 1 if feats else 0
+                if feats:
+                    tainted = False        # _finalize stored the live counters
+            elif out == "ok" and strategy == "error":
+                common.fail(res, sub, "update_duplicate_not_failed",
+                            "update with a duplicate key did not fail under merge_strategy='error'",
+                            observed=out, expected="an exception", update_lines=lines)
+                break
+            if out != "ok":
+                tainted = tainted or new_feats != feats_now or new_rel != rel_now
+            feats_now, rel_now = new_feats, new_rel
+            seen |= set(new_feats)
+        elif step[0] == "delete":
+            rw.delete(step[1], bool(step[2]))
+            new_feats, new_rel = observe(rw.db)
+            want = {k: v for k, v in feats_now.items() if k not in step[1]}
+            want_rel = {(p, c, l) for p, c, l in rel_now if p not in step[1] and c not in step[1]}
+            if judged and (new_feats != want or new_rel != want_rel):
+                common.fail(res, sub, "faulty_history_delete_differs",
+                            "delete did not remove exactly the named features and the relations naming them",
+                            extra_features=sorted(set(new_feats) - set(want)), missing_features=sorted(set(want) - set(new_feats)),
+                            extra_relations=sorted(new_rel - want_rel), missing_relations=sorted(want_rel - new_rel))
+                break
+            feats_now, rel_now = new_feats, new_rel
+            changing += 1
+        else:
+            if tainted and judged:
+                judged = False
+                res.count("reopen_directly_after_partly_committed_failed_update(unjudged from there)")
+            rw.reopen()
+    rw.finish()
+    if scripts is not None:
+        scripts.append((rw, repr(case["input"])))
+    return changing
+
 
 
 JUDGED = [0]
@@ -298,10 +440,109 @@ def judge(ctx, case):
     res = common.Result("C10")
     if case["scenario"] == "backup":
         check_backup(ctx, case, res)
+    elif case["scenario"] == "faulty_history":
+        play_faulty(ctx, case, res)
     elif case["scenario"] == "history" and list(case.get("base", BASE_LINES)) == BASE_LINES:
         JUDGED[0] += 1
         play(ctx, "j%d" % JUDGED[0], case["input"], res, [], [], [])
     return res
+
+
+FAULTY_BASE = BASE_LINES + [feat_line(None, ["a"], "exon", 20)]      # the counters are not empty to begin with
+
+
+def upd(feats, strategy="error", fail_at=None, checklines=2, backup=False):
+    return ["update", [list(f) for f in feats], strategy, fail_at, checklines, backup]
+
+
+def faulty_histories(r, n):
+    """directed histories around an update that fails part-way, then random ones"""
+    fill = [("r%d" % i, [], "region", 100 + i) for i in range(4)]
+    clash = ("a", [], "exon", 77)        # 'a' is stored with start 10: unmergeable -> 'a_1', recorded AND COMMITTED mid-import
+    same = ("a", [], "exon", 10)
+
+    def auto(i, ftype="exon"):
+        return (None, ["a"], ftype, i)
+    out = [
+        # the source fails behind the dialect peek after a merge clash has committed; more auto ids on the same handle,
+        # then after reopening
+        [upd([auto(1), clash] + fill, "merge", fail_at=5), upd([auto(2)]), ["reopen"], upd([auto(3), auto(4, "mRNA")])],
+        [upd([auto(1), auto(2, "mRNA"), clash], "merge", fail_at=3, backup=True), upd([auto(3), auto(4, "mRNA")], "merge"),
+         upd([auto(5)], "create_unique", backup=True), ["reopen"], upd([auto(6)])],
+        # a duplicate id under 'error' / an unresolvable one under 'merge' after auto keys were drawn: full rollback
+        [upd([auto(1), auto(2), same], "error"), upd([auto(3)]), upd([auto(4)], "create_unique"), ["reopen"], upd([auto(5)])],
+        [upd([auto(1), clash, clash, ("a_1", [], "exon", 5)], "merge", fail_at=4, checklines=1), upd([auto(2)]), ["reopen"],
+         upd([auto(3)])],
+        # what the failed update committed is deleted, the numbering still goes on
+        [upd([auto(1), clash], "merge", fail_at=2, checklines=1), ["delete", ["exon_2", "a_1"], True], upd([auto(2)], backup=True),
+         ["reopen"], upd([auto(3)])],
+        # two failures in a row
+        [upd([auto(1), clash] + fill, "merge", fail_at=4), upd([auto(2), clash] + fill, "merge", fail_at=3), upd([auto(3)]),
+         ["reopen"], upd([auto(4)])],
+        # reopening DIRECTLY after a partly committed failure: observation only (see play_faulty)
+        [upd([auto(1), clash] + fill, "merge", fail_at=5), ["reopen"], upd([auto(2)])],
+    ]
+    # the source failing at every position, full rollback (strategy error) and partial commit (merge)
+    for k in range(0, 8):
+        out.append([upd([auto(1), ("e", ["d"], "exon", 5), auto(2)] + fill, "error", fail_at=k, backup=k % 2 == 0),
+                    upd([auto(3)]), ["reopen"], upd([auto(4)])])
+        out.append([upd([auto(1), clash, auto(2)] + fill, "merge", fail_at=k), upd([auto(3), ("e", [], "exon", 6)])])
+    pool = ["a", "b", "c", "d", "e", "f"]
+    for _ in range(n):
+        h = []
+        for _ in range(r.randrange(2, 6)):
+            k = r.random()
+            if k < 0.7:
+                feats = rand_update(r, pool) + (fill[: r.randrange(0, 4)] if r.random() < 0.3 and not any(
+                    s[0] == "update" and any(f[0] == "r0" for f in s[1]) for s in h) else [])
+                feats = [(fid, [p for p in ps if p != fid], ft, st) for fid, ps, ft, st in feats]
+                fail_at = r.choice([None, None] + list(range(len(feats) + 1)))
+                cl = r.choice([1, 2, 2, 10])
+                if fail_at is not None and 0 < fail_at <= cl:
+                    # peek(checklines) takes checklines + 1 items; a source failing inside the peek never reaches the
+                    # importer, while World.step runs the prefix through it (the exception class may differ)
+                    cl = fail_at - 1
+                h.append(upd(feats, r.choice(["error", "merge", "merge", "create_unique", "replace", "warning"]), fail_at,
+                             cl, r.random() < 0.3))
+            elif k < 0.85:
+                h.append(["delete", r.sample(pool + ["exon_1", "exon_2", "a_1"], r.choice([1, 1, 2])), r.random() < 0.5])
+            else:
+                h.append(["reopen"])
+        out.append(h)
+    return out
+
+
+def backup_scripts(r, n):
+    """file-level scripts for World.step: writes with make_backup, a failing write, reads in between"""
+    out = [
+        [["delete", ["b"], True], ["count", None], ["delete", ["c"], False], ["delete", ["zz", "d"], True]],
+        [upd([(None, ["a"], "exon", 7), ("e", ["d"], "exon", 5)], backup=True), ["reopen"], ["delete", ["e"], True],
+         upd([], backup=True)],
+        [upd([("e", [], "exon", 5), ("f", [], "exon", 6), ("g", [], "exon", 7), ("a", [], "exon", 9)], "error", None, 2, True),
+         ["count", "exon"], upd([("e", [], "exon", 5), ("f", [], "exon", 6), ("g", [], "exon", 7)], "error", 2, 1, True),
+         ["addrel", "a", "d", 1], ["addrel", "a", "d", 1], ["addrel", "a", "nope", 1], ["delete", ["a"], True]],
+    ]
+    for _ in range(n):
+        s = []
+        for _ in range(r.randrange(2, 6)):
+            k = r.random()
+            if k < 0.4:
+                s.append(["delete", r.sample(["a", "b", "c", "d", "exon_1", "zz"], r.choice([1, 2])), r.random() < 0.7])
+            elif k < 0.75:
+                feats = [(r.choice([None, None, "e", "f", "a"]), r.sample(["a", "b"], r.choice([0, 1])), "exon", r.randrange(1, 99))
+                         for _ in range(r.randrange(0, 4))]
+                feats = [(fid, [p for p in ps if p != fid], ft, st) for fid, ps, ft, st in feats]
+                fail_at = r.choice([None, None, None] + list(range(len(feats) + 1)))
+                cl = 10 if fail_at is None or fail_at == 0 else r.choice([0, fail_at - 1])    # fails behind the peek
+                s.append(upd(feats, r.choice(["error", "create_unique", "replace"]), fail_at, cl, r.random() < 0.7))
+            elif k < 0.85:
+                s.append(["addrel", r.choice("abcd"), r.choice("abcd"), r.choice([1, 2])])
+            elif k < 0.93:
+                s.append(["count", r.choice([None, "exon"])])
+            else:
+                s.append(["reopen"])
+        out.append(s)
+    return out
 
 
 def run(ctx):
@@ -311,7 +552,10 @@ def run(ctx):
     res.rule = ("histories of 1-8 steps over update(0-3 features with/without ID and Parent values forming chains up to "
                 "depth 4; strategies error/warning/replace/create_unique), delete(ids), add_relation, reopen on file "
                 "databases (exhaustive to depth 2 over a 9-op alphabet + random deeper); the feature source of an update "
-                "failing at every position; make_backup. non-trivial = distinct history with >= 2 state-changing steps")
+                "failing at every position; make_backup. histories of 2-5 steps on ONE handle whose updates fail part-way "
+                "(source raising at every position before/behind the dialect peek, duplicate ids, merge_strategy='merge' "
+                "clashes that commit mid-import) followed by updates drawing auto ids, delete, reopen; file-level scripts "
+                "with make_backup through World.step. non-trivial = distinct history with >= 2 state-changing steps")
     cmds, exp, tags = [], [], []
     pool = ["a", "b", "c", "d", "e"]
     alphabet = [
@@ -360,6 +604,68 @@ def run(ctx):
             check_backup(ctx, {"scenario": "backup", "op": op, "fail_at": fail_at, "base": BASE_LINES,
                                "input": BACKUP_LINES, "delete_ids": ["b", "c", "d"], "config": cfg0.to_json(),
                                "no_shrink": True}, res)
+        # checklines=0 (the peek takes one item): the source fails DURING the import, not while the peek is taken
+        check_backup(ctx, {"scenario": "backup", "op": "update", "fail_at": fail_at, "checklines": 0, "base": BASE_LINES,
+                           "input": BACKUP_LINES, "delete_ids": [], "config": cfg0.to_json(), "no_shrink": True}, res)
+
+    # histories with updates that FAIL part-way: keys never recycle (oracle) + World.step with residue (model) -------
+    scripts = []
+    for hi, hist in enumerate(faulty_histories(r, 25 if not ctx.thorough else 400)):
+        case = {"scenario": "faulty_history", "base": FAULTY_BASE, "input": hist, "config": cfg0.to_json()}
+        if play_faulty(ctx, case, res, scripts) >= 2:
+            res.nontriv("faulty" + repr(hist))
+        if hi == 0:
+            res.sample({"faulty_history": hist})
+
+    # make_backup at file level: World.step keeps the pre-operation file under '<path>.bak' ---------------------------
+    for bi, steps in enumerate(backup_scripts(r, 6 if not ctx.thorough else 60)):
+        rw = worldside.RealWorld(os.path.join(ctx.scratch, "bw%d" % bi, "w"), os.path.join(ctx.scratch, "bw%d" % bi, "in"))
+        rw.create("main.db", FAULTY_BASE, cfg0, True)
+        rw.connect("main.db")
+        for st in steps:
+            res.evaluations += 1
+            if st[0] == "update":
+                rw.update([feat_line(*f) for f in st[1]], dbside.Cfg(strategy=st[2]), st[5], fail_at=st[3], checklines=st[4])
+            elif st[0] == "delete":
+                rw.delete(st[1], st[2])
+            elif st[0] == "addrel":
+                rw.addrel(st[1], st[2], st[3])
+            elif st[0] == "count":
+                rw.count(st[1])
+            else:
+                rw.reopen()
+        rw.finish()
+        res.count("world_backup_scripts")
+        scripts.append((rw, repr(steps)))
+
+    # unit layer: `load` of a database whose counters are NOT empty, then an update that draws more keys ---------------
+    for li in range(3 if not ctx.thorough else 20):
+        first = [feat_line(None, [], r.choice(["exon", "mRNA"]), 10 + i) for i in range(r.randrange(1, 5))] + [feat_line("p", [])]
+        more = [feat_line(None, ["p"], r.choice(["exon", "mRNA", "CDS"]), 50 + i) for i in range(r.randrange(1, 4))]
+        for old in [x for x in os.listdir(ctx.scratch) if x.startswith("load")]:
+            os.unlink(os.path.join(ctx.scratch, old))
+        dbfn = os.path.join(ctx.scratch, "load%d.db" % li)
+        db, rep = dbside.py_create(dbside.write_lines(os.path.join(ctx.scratch, "l.gff3"), first), cfg0, dbfn=dbfn)
+        db.conn.commit()
+        if r.random() < 0.5:
+            db = gffutils.FeatureDB(dbfn)
+        res.evaluations += 1
+        inp = repr({"loaded": first, "update": more})
+        cmds.append(dbside.cmd_load(db)); exp.append("ok"); tags.append(("load (counters not empty)", inp))
+        cmds.append("dump"); exp.append(dbside.dump(db)); tags.append(("tables after load", inp))
+        try:
+            db.update(dbside.write_lines(os.path.join(ctx.scratch, "lu.gff3"), more), make_backup=False, **cfg0.update_kwargs())
+            got = "ok"
+        except Exception as ex:
+            got = "err " + dbside.err_name(ex)
+        cmds.append(dbside.cmd_update(more, cfg0)); exp.append(got); tags.append(("update after load", inp))
+        cmds.append("dump"); exp.append(dbside.dump(db)); tags.append(("tables after load + update", inp))
+        res.count("load_with_counters_then_update")
+
+    wout = ctx.model([rw.command() for rw, _ in scripts])
+    if wout is not None:
+        for (rw, desc), reply in zip(scripts, wout):
+            worldside.compare_world(res, "World.step history", desc, rw, reply)
     out = ctx.model(cmds)
     if out is not None:
         for c, m, e, (comp, inp) in zip(cmds, out, exp, tags):
@@ -367,7 +673,11 @@ def run(ctx):
             if m != e:
                 res.corr_disagreements.append((comp, inp[:900], m[:600], e[:600]))
     res.assumptions = ["one merge configuration per update; ids free of tab", "a failed update's effect on the main file is "
-                       "not specified by the property beyond the backup (sqlite transaction behaviour)"]
+                       "not specified by the property beyond the backup (sqlite transaction behaviour)",
+                       "after a FAILED update the reference continues from the content actually observed (once the failed "
+                       "importer is garbage-collected); a key counts as handed out when it was in the database at some "
+                       "point; reopening directly after a failed update that left rows behind is not judged (the counters "
+                       "of that update were never stored: see unjudged_observations)"]
     common.shrink_first_failure(res, lambda case: judge(ctx, case))
     return res
 
